@@ -93,8 +93,10 @@ def _systematic(kind):
   return out
 
 
-def _gen_random(rng, i):
+def _gen_random(rng, i, kafka=False):
   kind = 'thrift' if i % 3 == 0 else 'mux'
+  if kafka and i % 4 == 3:
+    kind = 'kafka'
   s = {'kind': kind, 'fault_at': {}, 'plans': [], 'steps': [], 'rseed': rng.randint(0, 10 ** 6)}
   s['plans'] = [rng.choice([['ok', 0], ['ok', 0], ['ok', 30], ['refuse', 0], ['refuse', 20], ['hang']]) for _ in range(4)]
   if rng.random() < 0.8:
@@ -126,7 +128,7 @@ def _gen_random(rng, i):
       steps.append(['open'])
     elif k < 0.93 and kind == 'mux':
       steps.append(['silent', rng.choice([1, 0])])
-    elif kind == 'mux':
+    elif kind in ('mux', 'kafka'):
       steps.append(['frame', rng.choice([-2, -2, -128, -65, 127, 3]), rng.choice([0, 1, 1, 2, 3, 4, 7, 16777215])])
     else:
       steps.append(['badreply', rng.choice([0, 1])])
@@ -164,7 +166,7 @@ def cases(prop, tier, seed):
     for _ in range(20 if tier == 'quick' else 300):
       out.append(_gen_longrun(rng))
   for i in range(n):
-    out.append(_gen_random(rng, i))
+    out.append(_gen_random(rng, i, kafka=(prop == 'C11')))
   return out
 
 
@@ -195,6 +197,32 @@ def run_case(script):
     from scales.thrift.sink import SocketTransportSink, ThriftSerializerSink
     peer = peers.ThriftPeer(net)
     ser = ThriftSerializerSink.Builder()
+  elif kind == 'kafka':
+    from scales.kafka.sink import KafkaTransportSink
+    from scales.sink import SocketTransportSinkProvider, SinkProvider
+    from scales.constants import TransportHeaders
+    from scales.compat import BytesIO
+    from scales.message import MethodReturnMessage
+    SocketTransportSink = type('KafkaT', (), {'Builder': SocketTransportSinkProvider(KafkaTransportSink)})
+    peer = peers.KafkaPeer(net)
+
+    class RawSerializer(ClientMessageSink):
+      """Harness-side stand-in for the Kafka serializer: payload = the call's unique argument."""
+      def __init__(self, next_provider, sink_properties, global_properties):
+        super(RawSerializer, self).__init__()
+        self.next_sink = next_provider.CreateSink(global_properties)
+
+      def AsyncProcessRequest(self, sink_stack, msg, stream, headers):
+        buf = BytesIO()
+        buf.write(msg.args[0].encode('ascii'))
+        sink_stack.Push(self)
+        self.next_sink.AsyncProcessRequest(sink_stack, msg, buf, {TransportHeaders.MessageType: 0})
+
+      def AsyncProcessResponse(self, sink_stack, context, stream, msg):
+        if msg is None:
+          msg = MethodReturnMessage(return_value=stream.read())
+        sink_stack.AsyncProcessResponseMessage(msg)
+    ser = SinkProvider(RawSerializer)()
   else:
     from scales.thriftmux.sink import SocketTransportSink, ThriftMuxMessageSerializerSink
     peer = peers.MuxPeer(net)
@@ -257,7 +285,7 @@ def run_case(script):
       # mux: a shutdown that was not preceded by an I/O error is the ping timeout (silence).
       # serial: the transport closes its socket itself before re-connecting after a timeout;
       # that is not a failure (a failed re-connect is logged as connect_failed).
-      if not state['owner_closed'] and kind == 'mux':
+      if not state['owner_closed'] and kind in ('mux', 'kafka'):
         fail_seen()
     elif k == 'connected':
       state['connected'] += 1
@@ -269,7 +297,7 @@ def run_case(script):
       ev.append({'e': 'Silence', 'on': 1, 't': ms()})
     elif k == 'srv_frame':
       ev.append({'e': 'FrameOut', 'type': e['mtype'], 'tag': e['tag'], 't': ms()})
-    elif k == 'consumed' and kind == 'mux':
+    elif k == 'consumed' and kind in ('mux', 'kafka'):
       # a frame from the peer counts from the moment the client has read it off the socket
       ev.append({'e': 'FrameIn', 'type': e['mark']['mtype'], 'tag': e['mark']['tag'], 't': ms()})
   net.listeners.append(on_net)
@@ -330,7 +358,7 @@ def run_case(script):
         peer.release(un[op[1] % len(un)], payload=peers.tbin_encode_appexc('hi', 'boom'))
     elif k == 'frame':
       live = [c for c in net.conns if c.connected and not c.closed]
-      if live and kind == 'mux':
+      if live and kind in ('mux', 'kafka'):
         peer.send_frame(live[-1], op[1], op[2], b'\x00\x00\x00' if op[1] == -2 else b'')
     elif k == 'silent':
       if kind == 'mux':
